@@ -18,3 +18,21 @@ fb6_t verif_eval_into(nd_t src, nd_t out)
     ev(out);
     return out.data_;
 }
+
+// view-specific element semantics through the real decorator_t / indexing_t / transpose_t glue and ndarray indexing:
+// element of transpose(src) at a given multi-index (bounded unit)
+static inline bool mk(nd_t& a, const sv4_t& shape, const fb6_t& data)
+{
+    bool ok = a.resize(shape);
+    if (ok) { for (nm_size_t i = 0; i < a.data_.size(); i++) a.data_[i] = data[i]; }
+    return ok;
+}
+struct vat_res { bool ok; float value; };
+using vat_res_t = vat_res;
+vat_res verif_transpose_at(fb6_t src_data, sv4_t src_shape, sv4_t idx)
+{
+    nd_t src; bool ok = mk(src, src_shape, src_data);
+    if (!ok) return {false, 0.0f};
+    auto v = view::transpose(src, nm::None);
+    return {true, nm::apply_at(v, idx)};
+}
